@@ -784,12 +784,12 @@ example :
   free-list heads) stores the list-level content `g : Arena.Shape` (`par`, `kids`, `free`, keyed by
   slot index); `Arena.Wf a := ∃ g, Rep a g` is the pointer invariant.  `Arena.Call a a'`: one call
   (`new_node`, `detach`, `checked_append`, `checked_prepend`, `checked_insert_after`,
-  `checked_insert_before`, `remove`) with live arguments — the sibling insertions next to a node that
-  has a parent and is not below the inserted node, `remove` of a node with a parent or without
-  children: exactly the calls the forest model does not send to its `corrupt` sink.
-  Not covered by these theorems: `remove_subtree` (modelled and compared with the crate on every
-  run, not proved), `remove` of a parentless node with exactly one child, the `traverse` /
-  `descendants` iterators, and the link from `Arena.Shape` to `Forest` (`HTree`).
+  `checked_insert_before`, `remove`, `remove_subtree`) with live arguments — the sibling insertions
+  next to a node that has a parent and is not below the inserted node, `remove` of a node with a
+  parent or without children: exactly the calls the forest model does not send to its `corrupt`
+  sink (except `remove` of a parentless node with exactly one child, which is fine but not proved).
+  Not covered by these theorems: the `traverse` / `descendants` iterators and the link from
+  `Arena.Shape` (lists keyed by slot index) to `Forest` (`HTree`, handles in creation order).
   ===================================================================================== -/
 
 /-- Every arena reached from the empty one by such calls satisfies the pointer invariant. -/
@@ -826,6 +826,16 @@ theorem C04_arena_is_removed_forever (a a1 a2 : Arena) (x : Arena.NodeId) (w : A
   obtain ⟨g, r⟩ := w
   have hg := r.remove_gone x hx hcond hlt hrm
   have w1 : Arena.Wf a1 := ((Arena.Call.remove x a1 hx hcond hrm).rep r).1
+  have hg2 := hg.mono (hist.wf w1).2
+  exact ⟨hg2.isRemoved, hg2.not_liveId⟩
+
+/-- The same for `remove_subtree` (what `Xot::remove` calls): every id of the removed subtree. -/
+theorem C04_arena_is_removed_forever_subtree (a a1 a2 : Arena) (g : Arena.Shape) (r : Arena.Rep a g)
+    (x : Arena.NodeId) (hx : Arena.LiveId a x) (hrm : Arena.removeSubtree a x = .done a1 ()) (u : Nat)
+    (hu : Arena.Reach g.par u x.index0) (hlt : (a.idAt u).stamp < 32767) (hist : Arena.Steps a1 a2) :
+    Arena.isRemoved a2 (a.idAt u) = .done a2 true ∧ ¬ Arena.LiveId a2 (a.idAt u) := by
+  have hg := r.removeSubtree_gone x hx hrm u hu hlt
+  have w1 : Arena.Wf a1 := ((Arena.Call.removeSubtree x a1 hx hrm).rep r).1
   have hg2 := hg.mono (hist.wf w1).2
   exact ⟨hg2.isRemoved, hg2.not_liveId⟩
 
@@ -909,6 +919,16 @@ theorem C04_arena_refines_remove (a : Arena) (g : Arena.Shape) (r : Arena.Rep a 
         obtain ⟨_, a', _, _, h, _, r'⟩ := r.remove_inner i p L R c1 ck hi hp hkp hh hl
         exact ⟨a', h, r'⟩
 
+/-- Refinement, `remove_subtree`: never panics, both loops end; the node is detached and exactly its
+    descendants-or-self `l` are freed, in the order `l` (document order), which is the order in which
+    `new_node` will reuse the slots. -/
+theorem C04_arena_refines_remove_subtree (a : Arena) (g : Arena.Shape) (r : Arena.Rep a g) (i : Nat)
+    (hi : Arena.Live a i) :
+    ∃ a' l, Arena.removeSubtree a (a.idAt i) = .done a' () ∧ Arena.Rep a' ((g.detach i).prune l) ∧ l.Nodup ∧
+      (∀ u, u ∈ l ↔ Arena.Reach g.par u i) ∧ Arena.StampMono a a' := by
+  obtain ⟨a', l, h, ok⟩ := r.removeSubtree i hi
+  exact ⟨a', l, h, ok.rep, ok.nodup, fun u => (ok.mem u).trans (r.reach_detach_iff i u), ok.mono⟩
+
 /-- Non-vacuity: closed arenas reached by histories (three nodes `1:0 [2:0, 3:0]`; a grandchild;
     after `remove(2:0)` and a `new_node` that reuses the slot with stamp 1), their invariant, what the
     stale id `2:0` answers, and what indextree does outside the list semantics: `remove` of a
@@ -924,7 +944,11 @@ example : Arena.sampleA.wf = true ∧ Arena.sampleC.wf = true ∧
     Arena.isRemoved Arena.sampleC ⟨2, 0⟩ = .done Arena.sampleC true ∧
     Arena.isRemoved Arena.sampleC ⟨2, 1⟩ = .done Arena.sampleC false ∧
     Arena.children Arena.sampleC ⟨1, 0⟩ 9 = .done Arena.sampleC [⟨4, 0⟩, ⟨3, 0⟩] ∧
-    Arena.sampleC.firstFree = none := by decide
+    Arena.sampleC.firstFree = none ∧
+    (match Arena.removeSubtree Arena.sampleB ⟨2, 0⟩ with
+     | .done a' () => a'.wf && a'.firstFree == some 1 && a'.lastFree == some 3 &&
+         Arena.isRemoved a' ⟨4, 0⟩ == .done a' true && Arena.children a' ⟨1, 0⟩ 9 == .done a' [⟨3, 0⟩]
+     | _ => false) = true := by decide
 
 example : (Arena.sampleA.after (Arena.remove · ⟨1, 0⟩)).wf = false ∧
     (Arena.sampleA.after (Arena.remove · ⟨1, 0⟩)).get ⟨2, 0⟩ =
